@@ -116,7 +116,7 @@ def checkmultisig(sigs, m, keys, digest_fn):
     return True
 
 
-def script_path_ok(tx, idx, spent, stack, script, cb, annex):
+def script_path_ok(tx, idx, spent, stack, script, cb, annex, authorisation_only=False):
     if len(cb) < 33 or (len(cb) - 33) % 32 or len(cb) > 33 + 128 * 32:
         return False, "control block length"
     lv = cb[0] & 0xFE
@@ -160,13 +160,21 @@ def script_path_ok(tx, idx, spent, stack, script, cb, annex):
         if sig == b"":
             continue
         if not schnorr_ok(x, sig):
+            if authorisation_only:
+                # consensus (BIP342) fails the script here; as a question of AUTHORISATION the element simply is no signature
+                continue
             return False, "invalid non-empty signature"
         count += 1
+    if authorisation_only:
+        return count >= k, "threshold"
     return count == k, "threshold"
 
 
-def verify_input(tx, idx, spent):
-    """tx: ref.txmodel dict; spent: [(amount, scriptPubKey)] for every input. -> (authorised: bool, reason)"""
+def verify_input(tx, idx, spent, authorisation_only=False):
+    """tx: ref.txmodel dict; spent: [(amount, scriptPubKey)] for every input. -> (authorised: bool, reason)
+    Default: the consensus verdict for the standard templates. authorisation_only=True answers the weaker question the soundness
+    clause of C06 asks - does the spend carry at least the required valid signatures by distinct script keys - and so does not
+    count a junk non-empty element in a tapscript CHECKSIGADD slot (consensus-invalid, but not a lack of authorisation) against it."""
     inp = tx["ins"][idx]
     amount, spk = spent[idx]
     ss = inp["script_sig"]
@@ -250,5 +258,5 @@ def verify_input(tx, idx, spent):
             ht = sig[64] if len(sig) == 65 else 0
             d = rs.bip341(tx, idx, spent, ht, annex=annex)
             return (d is not None and secp.schnorr_verify(spk[2:], d, sig[:64])), "key path signature"
-        return script_path_ok(tx, idx, spent, w[:-2], w[-2], w[-1], annex)
+        return script_path_ok(tx, idx, spent, w[:-2], w[-2], w[-1], annex, authorisation_only)
     return False, "not a standard output type"
